@@ -34,6 +34,7 @@ type HarnessSpec struct {
 	TimeoutMs int      `json:"timeout_ms"`
 	MaxPaths  int      `json:"max_paths"`
 	Note      string   `json:"note"`
+	Concretize bool    `json:"concretize"`
 }
 
 type PropSpec struct {
@@ -197,7 +198,7 @@ func exploreHarness(ld *Loaded, spec HarnessSpec, tier string, workers int, know
 	if spec.Solver == "" {
 		solverKind = SZ3New
 	}
-	cfg := &HarnessCfg{Lowering: lowerOf(spec.Lowering), TimeoutMs: timeout, FeasTimeoutMs: 2500}
+	cfg := &HarnessCfg{Lowering: lowerOf(spec.Lowering), TimeoutMs: timeout, FeasTimeoutMs: 2500, IncrTimeoutMs: 5000, Concretize: spec.Concretize}
 	sh := &Shared{mergeable: map[*ssa.Function]bool{}, mergeableInner: map[*ssa.Function]bool{}}
 	hr := &HarnessResult{Spec: spec, PathKinds: map[string]int{}, Reach: map[string]bool{}, Fns: map[string]bool{}, Stubs: map[string]int{}, Known: map[string]int{}}
 	t0 := time.Now()
@@ -293,6 +294,10 @@ func exploreHarness(ld *Loaded, spec HarnessSpec, tier string, workers int, know
 				}
 			}
 			switch res.Kind {
+			case "panic":
+				if os.Getenv("VERIF_DEBUG_PANIC") != "" {
+					fmt.Fprintln(os.Stderr, "PANIC-PATH:", res.Msg, res.Violations)
+				}
 			case "unsupported", "unwind", "steps", "deadlock":
 				if len(hr.Incon) < 50 {
 					hr.Incon = append(hr.Incon, res.Kind+": "+res.Msg)
